@@ -250,6 +250,25 @@ fn gen_lit(t: &mut Tape, cfg: &GenCfg) -> Tok {
 
 fn gen_class(t: &mut Tape, cfg: &GenCfg) -> Tok {
     let neg = t.chance(64);
+    if t.chance(22) {
+        // members that mean something inside a class of the regular expression the glob compiles
+        // to (negation, set operators, named classes, escapes) but nothing in a glob class
+        let items: Vec<Item> = match t.below(12) {
+            0 => vec![Item::Ch('^')],
+            1 => vec![Item::Ch('^'), Item::Ch('^')],
+            2 => vec![Item::Range('^', '^')],
+            3 => vec![Item::Ch('&')],
+            4 => vec![Item::Ch('a'), Item::Ch('&'), Item::Ch('&'), Item::Ch('b')],
+            5 => vec![Item::Ch('a'), Item::Ch('~'), Item::Ch('~'), Item::Ch('b')],
+            6 => vec![Item::Ch('&'), Item::Ch('&')],
+            7 => vec![Item::Ch('a'), Item::Ch('-'), Item::Ch('-'), Item::Ch('b')],
+            8 => vec![Item::Ch('['), Item::Ch(':'), Item::Ch('a'), Item::Ch(':'), Item::Ch(']')],
+            9 => vec![Item::Ch('^'), Item::Ch('a')],
+            10 => vec![Item::Ch('a'), Item::Ch('&')],
+            _ => vec![Item::Ch('~')],
+        };
+        return Tok::Class { neg, items };
+    }
     let n = 1 + t.weighted(&[55, 30, 15]);
     let mut items = Vec::new();
     for _ in 0..n {
@@ -264,6 +283,11 @@ fn gen_class(t: &mut Tape, cfg: &GenCfg) -> Tok {
                 Item::Range('à', 'ï'),
                 Item::Range('𐐀', '𐐨'),
                 Item::Range('b', 'a'),
+                // end points without casing around letters: no flag may make them caseless
+                Item::Range('@', '_'),
+                Item::Range('0', '_'),
+                Item::Range('!', '.'),
+                if cfg.class_sep == 0 { Item::Range('[', 'z') } else { Item::Range(' ', '~') },
                 if cfg.class_sep == 0 { Item::Range('0', '1') } else { Item::Range('.', '0') },
             ]));
         }
@@ -292,14 +316,22 @@ fn gen_bounds(t: &mut Tape, cfg: &GenCfg) -> (usize, Option<usize>, u8) {
         Some(0) => Some(1),
         h => h,
     };
-    let spell = t.below(2) as u8;
-    // now and then a bound of two digits (the number is parsed, not looked up)
-    let (lo, hi) = if cfg.max_bound >= 3 && t.chance(8) {
-        match t.below(4) {
+    let spell = t.weighted(&[120, 120, 16]) as u8;
+    // now and then a bound of two or three digits (the number is parsed, not looked up)
+    let (lo, hi) = if cfg.max_bound >= 3 && t.chance(10) {
+        match t.below(12) {
             0 => (10, Some(10)),
             1 => (0, Some(11)),
             2 => (9, Some(12)),
-            _ => (10, None),
+            3 => (10, None),
+            4 => (16, Some(16)),
+            5 => (15, Some(17)),
+            6 => (4, Some(20)),
+            7 => (32, None),
+            8 => (100, Some(100)),
+            9 => (99, Some(101)),
+            10 => (63, Some(65)),
+            _ => (7, Some(8)),
         }
     }
     else {
